@@ -203,6 +203,59 @@ def one_case(args):
         shutil.rmtree(d, ignore_errors=True)
 
 
+def long_hold_case(args):
+    """The holder dies (SIGKILL) after holding the lock for hold_s while a contender has been waiting
+    for it with a plain timed acquire (default poll interval): the contender must get the lock
+    promptly after the death, however long it had already waited."""
+    hold_s, = args
+    F = _import()
+    d = tempfile.mkdtemp(prefix='vcrash-')
+    try:
+        path = os.path.join(d, 'the.lock')
+        ev = [{'n': 0, 't': 0, 'e': 'CrashConfig', 'kind': 'long_hold', 'kill_at': 0, 'contenders': 1,
+               'prompt_ms': PROMPT_MS, 'inherited': False}]
+        r1, w1 = os.pipe()
+        victim = os.fork()
+        if victim == 0:
+            try:
+                lock = F.FileLock(path)
+                lock.acquire()
+                os.write(w1, b'h')
+                time.sleep(hold_s + 30)
+            finally:
+                os._exit(0)
+        os.read(r1, 1)
+        r2, w2 = os.pipe()
+        cont = os.fork()
+        if cont == 0:
+            try:
+                lock = F.FileLock(path)
+                ok = lock.acquire(timeout=hold_s + 20)
+                os.write(w2, json.dumps([bool(ok), time.time()]).encode())
+                if ok:
+                    lock.release()
+            finally:
+                os._exit(0)
+        os.close(w2)
+        time.sleep(hold_s)
+        os.kill(victim, signal.SIGKILL)
+        tk = time.time()
+        os.waitpid(victim, 0)
+        ev.append({'n': 1, 't': 0, 'e': 'Killed', 'nth': 0, 'fn': 'holding', 'line': 0})
+        rl, _, _ = select.select([r2], [], [], 15.0)
+        if rl:
+            ok, ta = json.loads(os.read(r2, 4096).decode())
+            ev.append({'n': 2, 't': 0, 'e': 'Probe', 'ok': ok, 'ms': max(0, int((ta - tk) * 1000))})
+        else:
+            ev.append({'n': 2, 't': 0, 'e': 'Probe', 'ok': False, 'ms': 15000})
+            os.kill(cont, signal.SIGKILL)
+        os.waitpid(cont, 0)
+        ev.append({'n': 3, 't': 0, 'e': 'End', 'status': 'ok', 'lines': 0})
+        return ev
+    finally:
+        shutil.rmtree(d, ignore_errors=True)
+
+
 def run(ctx):
     import multiprocessing as mp
     from harness.components import filelockmodel
@@ -229,7 +282,11 @@ def run(ctx):
             if kind in ('blocking', 'nested') and (ctx.tier == 'thorough' or n % 3 == 0):
                 cases.append((kind, reentrant, n, 0, True))
     with mp.get_context('fork').Pool(min(16, os.cpu_count() or 4)) as p:
+        lh = p.map_async(long_hold_case, [(3.6,)] if ctx.tier == 'quick' else [(3.6,), (7.0,), (1.0,)])
         traces = p.map(one_case, cases, chunksize=4)
+        lht = lh.get(120)
+    cases = cases + [('long_hold', False, 0, 1, False)] * len(lht)
+    traces = traces + lht
     verdicts, st = tlc.validate_batch(COMP, TRACE, traces)
     ctx.cov['states'] += st['states']
     ctx.cov['transitions'] += st['generated']
@@ -257,7 +314,7 @@ def run(ctx):
 def replay(prop, path):
     rep = json.load(open(path))
     case = tuple(rep['scenario']['case'])
-    tr = one_case(case)
+    tr = long_hold_case((3.6,)) if case[0] == 'long_hold' else one_case(case)
     verdicts, st = tlc.validate_batch(COMP, TRACE, [tr])
     hit = verdicts[0].get('C13')
     print('replay verdict:', hit)
